@@ -36,7 +36,7 @@ CONFIGS = ["file_array", "dict", "shared_memory_dict", "mixA", "mixB"]
 
 
 def plan(tier, seed):
-    n = 144 if tier == "quick" else 3000
+    n = 144 if tier == "quick" else 2000
     return [{"seed": seed, "start": s, "n": BATCH} for s in range(0, n, BATCH)]
 
 
@@ -262,7 +262,7 @@ def run_case(desc):
                 if sample is None:
                     sample = {"case": mapgen.describe(case), "storage": str(storage_arg(case, cfg, i)),
                               "fresh_run_info_keys": sorted(fresh[jid]["first"]["run_info"]) if isinstance(fresh[jid]["first"]["run_info"], dict) else None}
-    return v.result(keys=keys, sample=sample if desc["start"] % 60 == 0 else None)
+    return v.result(evaluations=v.counters.get("folders_reloaded_fresh", 0), keys=keys, sample=sample if desc["start"] % 60 == 0 else None)
 
 
 def finalize(agg, tier, seed):
